@@ -135,6 +135,8 @@ def run(ctx):
                  if (seed % 5 == 0 or seed < 10) else None)
         for p in o.get('productions', []):
             ctx.dist['prod:' + p] += 1
+        for t in o.get('topo0', []) + o.get('topo', []):
+            ctx.dist['topology:' + t] += 1
         if ob.get('folds'):
             ctx.dist['folded-layers'] += len(ob['folds'])
             ctx.dist['folded-layers-without-conv-bias'] += sum(1 for f in ob['folds'] if f['b'] is None)
